@@ -264,8 +264,9 @@ def build(cls_name, cfg, rec: Recorder):
         else:
             g2p = g2p_same if cfg.get("g2p") == "same" else g2p_half
     rec.g2p_user = g2p
+    flag = (lambda b: np.bool_(b)) if cfg.get("np_flags") else (lambda b: b)
     kw = dict(fitness_function=rec.wrap_fitness(f), iters=iters, pop_size=pop,
-              elitism=cfg.get("elitism", True), minimization=cfg.get("minimization", False),
+              elitism=flag(cfg.get("elitism", True)), minimization=flag(cfg.get("minimization", False)),
               keep_history=cfg.get("keep_history", True), random_state=cfg.get("seed", 0),
               optimal_value=cfg.get("optimal_value"), termination_error_value=cfg.get("termination_error_value", 0.0),
               no_increase_num=cfg.get("no_increase_num"), n_jobs=1)
@@ -445,6 +446,13 @@ def configs(tier: str, seed: int, classes=None, extra_stop=True):
             strs = ["best_1", "rand_1", "current_to_best_1", "rand_to_best1", "best_2", "rand_2"]
             for j, st_ in enumerate(strs if tier == "thorough" else strs[(seed % 2)::2]):
                 out.append((cn, dict(base, objective=o0, mutation=st_, elitism=(j % 2 == 1), minimization=(j % 2 == 0), seed=seed * 100 + 80 + j)))
+        if cn in ("DifferentialEvolution", "jDE"):
+            # the strategies that receive the best-so-far, with the elite slot in use
+            for j, st_ in enumerate(("best_2", "rand_to_best1") if seed % 2 == 0 else ("best_1", "current_to_best_1")):
+                out.append((cn, dict(base, objective=o0, mutation=st_, elitism=True, minimization=(j % 2 == 1), seed=seed * 100 + 86 + j)))
+        # the two flags given as numpy booleans (a value of a boolean configuration array), not the literals True / False
+        out.append((cn, dict(base, objective=o0, elitism=True, minimization=True, np_flags=True, seed=seed * 100 + 88)))
+        out.append((cn, dict(base, objective="plateau", elitism=True, minimization=False, np_flags=True, seed=seed * 100 + 89)))
         if cn == "GeneticProgramming":
             picks = [("rank", "gp_standard", "gp_weak_grow"), ("tournament_k", "gp_one_point", "gp_strong_shrink"), ("proportional", "gp_uniform_prop_2", "gp_average_swap"),
                      ("tournament_3", "gp_uniform_tour_3", "gp_custom_rate_point"), ("rank", "gp_uniform_rank_7", "gp_weak_point"), ("rank", "gp_empty", "gp_strong_grow")]
